@@ -92,6 +92,8 @@ pub enum Case {
     Bool(bool),
     Str(Vec<u8>),
     Block(Vec<u8>),
+    /// a block of this many pattern bytes (size boundaries without megabyte cases)
+    BigBlock(u32),
     StrBlock(String),
     Chr(String),
     Expr(String),
@@ -308,7 +310,7 @@ fn check_block(payload: &[u8], as_str: bool, obs: &Obs, key: &Case) -> CheckResu
         Err(e) => fail!("format-error", "formatting a {}-byte block failed with {}", payload.len(), e.get_code()),
     };
     let l = payload.len();
-    let crossing = matches!(l, 9 | 10 | 99 | 100 | 999 | 1000 | 9999 | 10000 | 99999 | 100000);
+    let crossing = matches!(l, 9 | 10 | 99 | 100 | 999 | 1000 | 9999 | 10000 | 99999 | 100000 | 999_999 | 1_000_000 | 9_999_999 | 10_000_000);
     obs.label_if(crossing, "block length at a power-of-ten edge");
     obs.nontrivial_if(crossing || l >= 2, key);
     let dec = decode_block(&out);
@@ -482,6 +484,7 @@ pub fn check(case: &Case, obs: &Obs) -> CheckResult {
         }
         Case::Str(s) => check_str(s, obs, case),
         Case::Block(p) => check_block(p, false, obs, case),
+        Case::BigBlock(n) => check_block(crate::rec::big_block(*n), false, obs, case),
         Case::StrBlock(s) => check_block(s.as_bytes(), true, obs, case),
         Case::Chr(s) => {
             obs.label("character data");
@@ -804,5 +807,10 @@ fn run(e: &Engine) {
         },
         check,
     );
+    if !cfg!(debug_assertions) {
+        // the digit count of the block header changes at every power of ten
+        let edges: Vec<Case> = (0..=7u32).flat_map(|k| { let p = 10u32.pow(k); [p.saturating_sub(1), p, p + 1] }).map(Case::BigBlock).collect();
+        e.fixed("block-length-at-every-power-of-ten", edges, check);
+    }
     e.proptest("values-of-every-type", e.tier.pick(1_000_000, 30_000_000), case_strategy, check);
 }
